@@ -228,7 +228,9 @@ def _main(mod, modname, prop, tier, seed, only, workdir, t0, no_canaries):
     results.sort(key=lambda r: r["label"])
     # 3. replay
     violations, known_lines, replays = [], [], 0
-    os.makedirs(os.path.join(ROOT, "evidence", "replays"), exist_ok=True)
+    # scratch evaluations (VERIF_NO_EVIDENCE) keep their replay files out of the committed evidence directory
+    rdir = os.path.join(ROOT, "evidence", "replays") if not os.environ.get("VERIF_NO_EVIDENCE") else os.path.join(tempfile.gettempdir(), "verif-replays-%d" % os.getuid())
+    os.makedirs(rdir, exist_ok=True)
     seen_oblig = set()
     for r in results:
         if r.get("error"):
@@ -247,7 +249,7 @@ def _main(mod, modname, prop, tier, seed, only, workdir, t0, no_canaries):
             ok = _replay(mod, r, f, workdir, seed)
             if ok:
                 n = len(violations)
-                path = os.path.join(ROOT, "evidence", "replays", "%s-%d.json" % (prop, n))
+                path = os.path.join(rdir, "%s-%d.json" % (prop, n))
                 with open(path, "w") as fd:
                     json.dump({"property": prop, "job": r["label"], "func": r["func"], "params": r["params"],
                                "obligation": f["obligation"], "msg": f["msg"], "model": f["model"],
@@ -271,7 +273,7 @@ def _main(mod, modname, prop, tier, seed, only, workdir, t0, no_canaries):
     for n_, e in enumerate(x for x in val_errs if x.startswith("VIOLATION:")):
         # the unmodified package failed the independent concrete oracle during model validation: a real violation,
         # found by a concrete run (not by the solver); reported because a true alarm must never be lost
-        path = os.path.join(ROOT, "evidence", "replays", "%s-v%d.json" % (prop, n_))
+        path = os.path.join(rdir, "%s-v%d.json" % (prop, n_))
         with open(path, "w") as fd:
             json.dump({"property": prop, "job": "model-validation", "found_by": "concrete validation run", "detail": e}, fd, indent=1)
         violations.append(({"obligation": "validation", "msg": e[:300], "model": {}}, path, "model-validation"))
